@@ -135,6 +135,8 @@ func (c *ConnectedGrouping) GroupClones(pairs []*ClonePair) []*CloneGroup {
 		return fragmentLess(groups[i].Fragments[0], groups[j].Fragments[0])
 	})
 
+	renumberGroups(groups)
+
 	return groups
 }
 
@@ -152,7 +154,8 @@ func majorityCloneType(typeMap map[string]CloneType, members []*CodeFragment) Cl
 	var best CloneType
 	maxC := -1
 	for t, c := range counts {
-		if c > maxC {
+		// On equal counts take the smaller type so the result does not depend on map order
+		if c > maxC || (c == maxC && t < best) {
 			maxC = c
 			best = t
 		}
